@@ -329,14 +329,19 @@ func CodeQuoteBegin(l *lexer) stateFn {
 }
 */
 func DirectiveUnionState(l *lexer) stateFn {
-	//skip space
+	//skip space, line breaks and comments
 	for {
 		r := l.next()
-		if r != ' ' && r != '\t' {
-			break
+		if r == ' ' || r == '\t' || r == '\n' {
+			continue
 		}
+		l.backup()
+		if strings.HasPrefix(l.input[l.end:], "//") || strings.HasPrefix(l.input[l.end:], "/*") {
+			CommentState(l)
+			continue
+		}
+		break
 	}
-	l.backup()
 	level := 0
 	if !l.acceptWord("{") {
 		l.error("union directive need { to start")
